@@ -109,7 +109,11 @@ theorem reject_negative_entry (l : Labelled) (p : Nat × Rat) (hp : p ∈ l) (hn
   have hany : ((l.filter fun p => p.2 ≠ 0).any fun p => p.2 ≤ 0) = true := by
     rw [List.any_eq_true]
     refine ⟨p, List.mem_filter.2 ⟨hp, by simpa using ne_of_lt hneg⟩, by simpa using le_of_lt hneg⟩
-  simp only [fromSeries, hemp, Bool.false_eq_true, if_false]
+  have hne : (l.filter fun p => p.2 ≠ 0).isEmpty = false := by
+    cases hf : (l.filter fun p => p.2 ≠ 0) with
+    | nil => rw [hf] at hany; simp at hany
+    | cons _ _ => rfl
+  simp only [fromSeries, hemp, hne, Bool.false_eq_true, if_false]
   rw [if_pos hany]
 
 theorem reject_negative_weight (impact : Rat) (aff : List Nat) (w : Labelled) (h : 0 < impact)
